@@ -1,8 +1,8 @@
 SPECIFICATION MCSpec
 CONSTANTS
-  MaxRecs = 9
+  MaxRecs = 11
   MaxBatch = 3
-  MaxOps = 16
+  MaxOps = 20
   MaxEpoch = 2
   CapSet = {1, 2, 3}
   KeySet = {"nil", "a"}
@@ -13,7 +13,7 @@ CONSTANTS
   LagSet = {0, 3}
   BigSet = {FALSE, TRUE}
   MaxCleans = 3
-  MaxTicks = 2
+  MaxTicks = 3
   UseWindow = TRUE
   UseReopen = TRUE
   UseEpochs = TRUE
